@@ -167,6 +167,18 @@ CHECKS = {
         design="4/C12, 6",
         note=("TLC and the specification; the concretisation pools of harness/c12.py (a value outside the pools is not covered); numpy-2 "
               "aliases in the harness process; Unions of two string-encoded kinds are outside the grammar")),
+    "C13": dict(
+        text=("SchemaSubtype.tla defines a field-type grammar (strict primitives, constrained string, Literals, nested schemas in a chain; "
+              "Optional, Union, List, Set), a boundary value corpus, Accepts and the semantic subtype relation; TLC checks for all 11236 "
+              "ordered type pairs that the structural rule is sound and exports Accepts and Sub; the harness calibrates Accepts against "
+              "real pydantic verdicts on every (type, value), then runs check_types on real Parent/(Middle/)Child classes for the type "
+              "pairs: an override accepted without declaration must be a semantic subtype (witness shown otherwise), declared overrides "
+              "must pass, extra-field policy must not be loosened; child instances of installed and harness schema families are parsed "
+              "by every ancestor."),
+        technique="TLA+ semantic subtype relation over a type grammar and corpus (TLC) + check_types decisions on real classes judged against it",
+        design="4/C13, 6",
+        note=("TLC and the specification; the value corpus is finite (a counterexample outside the corpus is not found); Accepts is "
+              "calibrated against pydantic at run time; numpy-2 aliases in the harness process")),
 }
 
 NOT_YET = "check not built yet (work in progress)"
